@@ -75,6 +75,7 @@ class Profile:
     p_watch: int = 8                    # a Watch object is passed (shared by the whole tree)
     p_prelude: int = 8                  # graph queried and re-wired before the run
     p_ret: int = 12                     # the body returns None / 0 / False / '' / a Future
+    p_latefill: int = 6                 # schedulers created empty, wired, then filled
     p_big: int = 8                      # % of schedulers that may have up to big_members
     big_members: int = 9
     force_nested: int = 0               # % of cases whose top has a nested scheduler for sure
@@ -84,15 +85,16 @@ class Profile:
 
 
 GENERAL = Profile()
-WIDE_SIZES = [12, 17, 20, 33, 40, 51, 65, 101, 130, 260]
+WIDE_SIZES = [12, 17, 20, 33, 40, 51, 65, 101, 130, 300]
 ODD_LABELS = ['{}', '{0}', '{x}', "awk '{print $1}'", '%s %d', '100%', 'a "quoted" one',
               'two\nlines', '', ' ', 'é→中', '${HOME}', '}{', 'x' * 60]
 EXC_NAMES = ['TimeoutError', 'KeyError', 'ValueError', 'OSError', 'RuntimeError',
              'LookupError', 'AssertionError']
 
 
-def _draw_job(draw, prof, wild):
-    forever = chance(draw, prof.p_forever)
+def _draw_job(draw, prof, wild, wide=False):
+    # in a wide scheduler most members are regular jobs (count thresholds on those)
+    forever = chance(draw, min(prof.p_forever, 4) if wide else prof.p_forever)
     d = draw(weighted(prof.durations))
     if (forever or wild) and chance(draw, prof.p_never if forever else 25):
         d = 'tick' if chance(draw, prof.p_tick) else 'never'
@@ -165,6 +167,18 @@ def _draw_sched(draw, prof, depth, under_timeout, budget, top=False):
     if wide:
         # size thresholds (slices, batches, id widths...) sit beyond the usual small cases
         n = draw(st.sampled_from(WIDE_SIZES))
+        if chance(draw, 25):
+            n = 300         # beyond CPython's cached small ints (256) as a count of members
+    if wide:
+        # Hypothesis bounds the amount of entropy of one example (a few hundred draws): a
+        # wide scheduler is made of a few drawn template jobs, varied by a deterministic
+        # function of one drawn seed (replay and shrinking work as for any drawn value)
+        templates = [_draw_job(draw, prof, wild, True) for _ in range(4)]
+        state = [draw(st.integers(0, 2 ** 16))]
+
+        def lcg():
+            state[0] = (state[0] * 1103515245 + 12345) % (2 ** 31)
+            return state[0] >> 8
     forced = top and not wide and prof.force_nested and chance(draw, prof.force_nested)
     forced_at = draw(st.integers(0, n - 1)) if forced and n else -1
     for j in range(n):
@@ -172,7 +186,14 @@ def _draw_sched(draw, prof, depth, under_timeout, budget, top=False):
                 j == forced_at or chance(draw, prof.p_nested)):
             member = _draw_sched(draw, prof, depth + 1, under, budget)
         else:
-            member = _draw_job(draw, prof, wild)
+            if wide:
+                member = dict(templates[j % 4])
+                if isinstance(member['d'], int):
+                    member['d'] = (member['d'] + lcg()) % 4
+                member['hkey'] = lcg() % prof.hkeys
+                member['tkey'] = lcg() % prof.tkeys
+            else:
+                member = _draw_job(draw, prof, wild)
             budget[0] -= 1
         never = may_never_end(member)
         if never and not wild:
@@ -180,8 +201,7 @@ def _draw_sched(draw, prof, depth, under_timeout, budget, top=False):
         preds = []
         if wide:
             # sparse: at most two requirements, drawn among the earlier members
-            cands = [draw(st.integers(0, j - 1)) for _ in range(draw(st.integers(0, 2)))] \
-                if j else []
+            cands = [lcg() % j for _ in range(lcg() % 3)] if j else []
         else:
             cands = [i for i in range(j) if chance(draw, prof.p_edge)]
         for i in sorted(set(cands)):
@@ -210,7 +230,8 @@ def _draw_sched(draw, prof, depth, under_timeout, budget, top=False):
         verbose=chance(draw, prof.p_verbose),
         hkey=draw(st.integers(0, prof.hkeys - 1)), tkey=draw(st.integers(0, prof.tkeys - 1)),
         members=members, edges=edges,
-        order=list(draw(st.permutations(list(range(n))))) if n > 1 else list(range(n)),
+        order=(list(draw(st.permutations(list(range(n))))) if 1 < n <= 12
+               else sorted(range(n), key=lambda i: (i * 7919 + 13) % 1009)),
         build=draw(weighted((('ctor', 3), ('add', 2), ('update', 1), ('mixed', 1)))),
         wild=wild, late_attrs=chance(draw, prof.p_late_attrs),
         watch=chance(draw, prof.p_watch))
@@ -255,6 +276,7 @@ def scenarios(draw, prof=GENERAL):
     top = _draw_sched(draw, prof, 0, False, budget, top=True)
     top['inspect'] = chance(draw, prof.p_inspect)
     top['prelude'] = chance(draw, prof.p_prelude)
+    top['latefill'] = chance(draw, prof.p_latefill)
     if chance(draw, prof.p_rerun):
         top['rerun'] = True
         _force_abstract(top)        # a coroutine object cannot be awaited twice
